@@ -8,11 +8,12 @@ import DemesVerif.Ops.Cli
 import DemesVerif.Ops.Cost
 import DemesVerif.Ops.Ms
 import DemesVerif.Ops.Heap
+import DemesVerif.Ops.Spec
 namespace Demes.Ops
 open Lean
 
 def dispatchers : List (String → Json → Option Json) :=
-  [Core.dispatch?, IO.dispatch?, Handles.dispatch?, Cli.dispatch?, Cost.dispatch?, Ms.dispatch?, Heap.dispatch?]
+  [Core.dispatch?, IO.dispatch?, Handles.dispatch?, Cli.dispatch?, Cost.dispatch?, Ms.dispatch?, Heap.dispatch?, SpecOps.dispatch?]
 
 def dispatch (j : Json) : Json :=
   match j.getObjValAs? String "op" with
